@@ -572,8 +572,8 @@ class VariantPaths(productmd.common.MetadataBase):
     def deserialize_0_3(self, parser):
         sections = [
             "variant-%s" % self._variant.uid,
-            "variant-%s" % self._variant.id,
             "addon-%s" % self._variant.uid,
+            "variant-%s" % self._variant.id,
             "addon-%s" % self._variant.id,
         ]
         # read all paths from the section of this variant, a path it does not
